@@ -10,6 +10,7 @@ import (
 	"reflect"
 	"runtime/debug"
 	"strings"
+	"sync"
 	"time"
 
 	"github.com/emersion/go-ical"
@@ -283,7 +284,44 @@ func errCond(err error) bool {
 	return false
 }
 
-func runC14(c C14Case, variant int) map[string]interface{} {
+type swapHTTP struct {
+	mu  sync.Mutex
+	cur webdav.HTTPClient
+}
+
+func (s *swapHTTP) Do(req *http.Request) (*http.Response, error) {
+	s.mu.Lock()
+	c := s.cur
+	s.mu.Unlock()
+	return c.Do(req)
+}
+
+type sharedSet struct {
+	tr   *swapHTTP
+	dav  *webdav.Client
+	cal  *caldav.Client
+	card *carddav.Client
+}
+
+func (sh *sharedSet) clients(tr webdav.HTTPClient, shared bool) (*webdav.Client, *caldav.Client, *carddav.Client) {
+	if !shared || sh == nil {
+		dc, _ := webdav.NewClient(tr, "http://example.com/")
+		cc, _ := caldav.NewClient(tr, "http://example.com/")
+		ac, _ := carddav.NewClient(tr, "http://example.com/")
+		return dc, cc, ac
+	}
+	sh.tr.mu.Lock()
+	sh.tr.cur = tr
+	sh.tr.mu.Unlock()
+	if sh.dav == nil {
+		sh.dav, _ = webdav.NewClient(sh.tr, "http://example.com/")
+		sh.cal, _ = caldav.NewClient(sh.tr, "http://example.com/")
+		sh.card, _ = carddav.NewClient(sh.tr, "http://example.com/")
+	}
+	return sh.dav, sh.cal, sh.card
+}
+
+func runC14(c C14Case, variant int, sh *sharedSet) map[string]interface{} {
 	ev := map[string]interface{}{"k": "c14", "m": c.M, "kind": c.Kind, "st": c.St, "ct": c.Ct, "body": c.Body, "place": c.Place,
 		"err": false, "code": 0, "cond": false, "panic": false, "panicin": "", "hang": false, "deleted": 0, "items": 0}
 	tr := buildResponse(c, variant)
@@ -305,9 +343,9 @@ func runC14(c C14Case, variant int) map[string]interface{} {
 			done <- r
 		}()
 		ctx := context.Background()
-		dc, _ := webdav.NewClient(tr, "http://example.com/")
-		cc, _ := caldav.NewClient(tr, "http://example.com/")
-		ac, _ := carddav.NewClient(tr, "http://example.com/")
+		// every other case goes through long-lived clients shared by all cases (a client is meant to be reused: whatever one
+		// response leaves behind in it must not change how the next one is read), the rest through fresh ones
+		dc, cc, ac := sh.clients(tr, variant%2 == 0)
 		switch c.M {
 		case "dav.FindCurrentUserPrincipal":
 			var p string
